@@ -450,14 +450,18 @@ def native_strain_rotated(shear):
     for key in [k for k in all_keys() if k.is_shear]:
         # generic fields and fields with special structure (one row; the same anisotropic triple at every volume; a first row that is isotropic while later rows are not)
         for strain in ([[0.2, 0.3, 0.5], [0.1, 0.6, 0.3]], [[1.0, 2.0, 3.0], [0.5, 0.25, 0.125]], [[1.0, 1.0, 1.0]], [[0.2, 0.3, 0.5]], [[0.2, 0.3, 0.5], [0.2, 0.3, 0.5], [0.2, 0.3, 0.5]],
-                       [[1 / 3, 1 / 3, 1 / 3], [0.2, 0.3, 0.5], [0.25, 0.35, 0.4]], [[0.3, 0.3, 0.3], [0.3, 0.3, 0.3]]):
+                       [[1 / 3, 1 / 3, 1 / 3], [0.2, 0.3, 0.5], [0.25, 0.35, 0.4]], [[0.3, 0.3, 0.3], [0.3, 0.3, 0.3]],
+                       # exactly two equal fractions, in each position (tetragonal / hexagonal cells: a = b != c): the slots of the rotated frame are NOT the crystal axes
+                       [[0.4, 0.4, 0.2], [0.3, 0.3, 0.4]], [[0.2, 0.4, 0.4], [0.5, 0.25, 0.25]], [[0.4, 0.2, 0.4]], [[0.4, 0.4, 0.2], [0.2, 0.3, 0.5]],
+                       # whole-number triples handed over as an INTEGER array (positive triples all the same): the result is a real array
+                       numpy.array([[1, 2, 3], [3, 1, 2]]), numpy.array([[1, 1, 1]]), numpy.array([[2, 2, 1]])):
             e = numpy.array(strain)
             o = S(e, key)
             T = numpy.asarray(o.transformation_matrix, dtype=float)
             want = e @ (T * T)
             got = numpy.asarray(o.strain_rotated, dtype=float)
             if got.shape != want.shape or not numpy.allclose(got, want, rtol=1e-10, atol=1e-13):
-                return {"reproduced": True, "key": repr(key), "strain": strain, "observed": got.tolist(), "expected": want.tolist()}
+                return {"reproduced": True, "key": repr(key), "strain": numpy.asarray(strain).tolist(), "dtype": str(e.dtype), "observed": got.tolist(), "expected": want.tolist()}
     return {"reproduced": False}
 
 
